@@ -89,6 +89,31 @@ Theorem c04_needs_single_txn_refuted :
 Proof. exact needs_single_txn_refuted. Qed.
 Print Assumptions c04_needs_single_txn_refuted.
 
+(* Cancelled and cycle-failed builds (only the tasks that finished are stored, the iteration is still written):
+   well-formed, hence atomic under a kill and invariant-preserving, for every subset of finished tasks. *)
+Theorem c04_cancelled_build_wf : forall st e results (finished : key * result -> bool),
+  e = iteration st + 1 -> results_ok e results = true ->
+  wf_trace st (trace_of_build e (filter finished results)) = true.
+Proof. exact cancelled_build_wf. Qed.
+Print Assumptions c04_cancelled_build_wf.
+
+Theorem c04_cancelled_build_inv : forall st e results (finished : key * result -> bool) n,
+  DbInv st -> e = iteration st + 1 -> results_ok e results = true ->
+  DbInv (recover st (firstn n (trace_of_build e (filter finished results)))).
+Proof. exact cancelled_build_inv. Qed.
+Print Assumptions c04_cancelled_build_inv.
+
+(* A failed build that commits its rows without the iteration violates the invariant with no kill at all. *)
+Theorem c04_failed_build_no_iteration_refuted :
+  exists st0 e completed,
+    DbInv st0 /\ e = iteration st0 + 1 /\ results_ok e completed = true /\
+    wf_trace st0 (trace_failed_no_iteration e completed) = false /\
+    ~ DbInv (recover st0 (trace_failed_no_iteration e completed)) /\
+    exists k r, lookup (rows (recover st0 (trace_failed_no_iteration e completed))) k = Some r /\
+                res_builtAt r = iteration (recover st0 (trace_failed_no_iteration e completed)) + 1.
+Proof. exact failed_build_no_iteration_refuted. Qed.
+Print Assumptions c04_failed_build_no_iteration_refuted.
+
 Theorem c04_commit_per_result_not_atomic :
   exists st0 e results n,
     DbInv st0 /\ e = iteration st0 + 1 /\ results_ok e results = true /\
